@@ -139,11 +139,14 @@ def gen_mem(outdir, minpages=1, maxpages=8, nomax=False):
     seg0 = bytes((i * 7 + 3) & 0xFF for i in range(200))
     seg1 = bytes((255 - i) & 0xFF for i in range(33))
     m.data_active([("i32.const", 1000)], b"ACTIVE-SEGMENT")
+    # a later segment whose trailing zero bytes have to overwrite what the first one put there, and one that is all zeros
+    m.data_active([("i32.const", 1004)], b"\x01\x00\x00\x00")
+    m.data_active([("i32.const", 1010)], b"\x00\x00")
     m.data_passive(seg0)
     m.data_passive(seg1)
     m.data_passive(b"")
     for s in (1, 2, 3):
-        g.add("init%d" % s, "iii", "", [("local.get", 0), ("local.get", 1), ("local.get", 2), ("memory.init", s)], "init", str(s))
+        g.add("init%d" % s, "iii", "", [("local.get", 0), ("local.get", 1), ("local.get", 2), ("memory.init", s + 2)], "init", str(s))
     g.write(outdir)
 
 
